@@ -57,6 +57,7 @@ type myStmt struct {
 	query   string // translated to the evaluator's dialect
 	nParams int
 	types   []byte // parameter types of the last execution that sent them
+	long    map[int][]byte // parameter values received with COM_STMT_SEND_LONG_DATA for the next execution
 }
 
 type myConn struct {
@@ -446,8 +447,17 @@ func (db *PgDB) ServeMySQL(conn io.ReadWriter) error {
 			if len(body) >= 4 {
 				delete(stmts, binary.LittleEndian.Uint32(body))
 			}
-		case 0x18: // COM_STMT_SEND_LONG_DATA: no response (not supported: the value is dropped)
-			db.Unsupported++
+		case 0x18: // COM_STMT_SEND_LONG_DATA: no response; the pieces are the parameter's value at the next execution
+			if len(body) >= 6 {
+				if st := stmts[binary.LittleEndian.Uint32(body)]; st != nil {
+					if st.long == nil {
+						st.long = map[int][]byte{}
+					}
+					k := int(binary.LittleEndian.Uint16(body[4:]))
+					st.long[k] = append(st.long[k], body[6:]...)
+					db.ParamsSeen = append(db.ParamsSeen, append([]byte{}, body[6:]...))
+				}
+			}
 		default:
 			if err := c.err(1047, "08S01", "Unknown command"); err != nil {
 				return err
@@ -490,7 +500,13 @@ func (db *PgDB) decodeMyParams(st *myStmt, b []byte) ([][]byte, []int16, error) 
 	}
 	params := make([][]byte, n)
 	formats := make([]int16, n)
+	long := st.long
+	st.long = nil
 	for i := 0; i < n; i++ {
+		if v, ok := long[i]; ok {
+			params[i], formats[i] = v, 1
+			continue
+		}
 		if nulls[i/8]&(1<<(uint(i)%8)) != 0 {
 			continue
 		}
